@@ -30,6 +30,8 @@ pub struct IoParams {
     pub use_splice: bool,
 }
 
+const MAX_BUFFER_SIZE: usize = 64 << 20;
+
 impl Default for IoParams {
     fn default() -> Self {
         Self {
@@ -43,7 +45,16 @@ impl Config {
     pub async fn load(path: &str) -> Result<Self, Error> {
         let s = tokio::fs::read(path).await.context("read file")?;
         let s = String::from_utf8(s).context("parse utf8")?;
-        serde_yaml::from_str(&s).context("parse yaml")
+        let cfg: Self = serde_yaml::from_str(&s).context("parse yaml")?;
+        // every tunnel allocates two buffers of this size: a value the allocator can not satisfy
+        // would abort the process when the first connection arrives, and 0 can not carry data
+        if !(1..=MAX_BUFFER_SIZE).contains(&cfg.io_params.buffer_size) {
+            return Err(easy_error::err_msg(format!(
+                "ioParams.bufferSize must be between 1 and {}: {}",
+                MAX_BUFFER_SIZE, cfg.io_params.buffer_size
+            )));
+        }
+        Ok(cfg)
     }
 }
 
